@@ -1,11 +1,13 @@
 (* C16 — tree walks always terminate and respect filesystem boundaries.
    Statements only; proofs in Proofs/WalkTerm.v (verification walk), Proofs/UnregTerm.v (scan for
    unregistered Manifests) and Proofs/UpdateTerm.v (update / create walk): all three walks of the model
-   terminate by themselves on any finite inode graph. *)
+   terminate by themselves on any finite inode graph; Proofs/NoLoop.v: a directory verification that returns has walked into
+   no directory that has the identity of one of its own ancestors (C16_no_loop_is_walked_into). *)
 From Coq Require Import List NArith ZArith Arith Lia.
 From Gemato Require Import Py.PyStr Py.PyPath Gen.Tables Model.Entry Model.Text Model.OpenPGP Model.Hash Model.FS
   Model.Verify Model.Loader Model.Update.
-From Gemato Require Import Proofs.WalkTerm Proofs.UnregTerm Proofs.UpdateTerm.
+From Gemato Require Import Proofs.WalkTerm Proofs.UnregTerm Proofs.UpdateTerm Proofs.WalkComplete Proofs.NoLoop.
+From Gemato Require Import Exec.Oracles.
 Import ListNotations.
 Open Scope N_scope.
 
@@ -67,3 +69,43 @@ Theorem C16_xdev_file : forall (L : hashlib) w path t p a s c d lm i st,
   verify_path L w path (Some (EFile t p a s c)) (Some d) lm = Err (XCrossDevice path).
 Proof. exact verify_path_xdev. Qed.
 Print Assumptions C16_xdev_file.
+
+(* through the whole walk: when the verification of a sub-directory returns (True or False, any handler), every directory it
+   reached - from the start, through listed sub-directories that are not hidden and have no entry - has an identity
+   (st_dev, st_ino) different from those of all the directories passed on the way to it: a symbolic link that leads back to one of
+   its own ancestors is never walked into and accepted (by C16_loop_raised the walk ends with the symlink-loop error there) *)
+Theorem C16_no_loop_is_walked_into : forall (L : hashlib) decompress pgp w l path pol lm l' b log,
+  wf_world w -> no_trailing_slash (pjoin rootdir path) ->
+  assert_directory_verifies L decompress pgp w l path pol lm = Ok (l', b, log) ->
+  exists ed, get_file_entry_dict L decompress pgp w l path None true = Ok (l', ed) /\
+    forall dp rel anc, reachc w ed (pjoin rootdir path) path [] dp rel anc ->
+      forall st, p_stat w dp = Ok st -> ~ In (st_dev st, st_ino st) anc.
+Proof. exact verification_walks_into_no_loop. Qed.
+Print Assumptions C16_no_loop_is_walked_into.
+
+(* non-vacuity: the directory s holds an entry t that leads back to s itself; the premises hold, s/t is reached with the identity of
+   s among the identities passed, and the verification of s ends with the symlink-loop error for s/t *)
+Definition c16_w : world :=
+  mk_world 1 [(1, IDir 7 1 [([77;97;110;105;102;101;115;116], TIno 2); ([115], TIno 4)]);
+              (2, IFile 7 0 0 []); (4, IDir 7 1 [([116], TIno 4)])] [] [].
+Definition c16_dec : list N -> list N -> res (list N) := fun _ _ => Err XBadCompressed.
+Definition c16_pgp : list N -> res sigdata := fun _ => Err (XPGP PGPNoImpl).
+Example C16_loop_example :
+  wf_world c16_w /\ no_trailing_slash (pjoin rootdir [115]) /\
+  exists l0 l1 ed,
+    new_loader (table_hashlib []) c16_dec c16_pgp c16_w [77;97;110;105;102;101;115;116] (mk_opts None false None [] PDefault None None false) false true = Ok l0 /\
+    get_file_entry_dict (table_hashlib []) c16_dec c16_pgp c16_w l0 [115] None true = Ok (l1, ed) /\
+    reachc c16_w ed (pjoin rootdir [115]) [115] [] (pjoin (pjoin rootdir [115]) [116]) (pjoin [115] [116]) [(7, 4)] /\
+    (exists st, p_stat c16_w (pjoin (pjoin rootdir [115]) [116]) = Ok st /\ In (st_dev st, st_ino st) [(7, 4)]) /\
+    assert_directory_verifies (table_hashlib []) c16_dec c16_pgp c16_w l0 [115] PolFalse None = Err (XSymlinkLoop (pjoin (pjoin rootdir [115]) [116])).
+Proof.
+  split.
+  { intros i dev par ents Hin n t Hn. cbn in Hin. repeat (destruct Hin as [Hin|Hin]; [inversion Hin; subst; cbn in Hn|]); try destruct Hin.
+    - destruct Hn as [Hn|[Hn|[]]]; inversion Hn; subst; split; [discriminate|intros [H|[H|[H|[H|[H|[H|[H|[H|[]]]]]]]]]; discriminate|discriminate|intros [H|[]]; discriminate].
+    - destruct Hn as [Hn|[]]; inversion Hn; subst; split; [discriminate|intros [H|[]]; discriminate]. }
+  split; [split; [discriminate|vm_compute; reflexivity]|].
+  do 3 eexists. split; [vm_compute; reflexivity|]. split; [vm_compute; reflexivity|]. split.
+  { eapply reachc_down; [vm_compute; reflexivity|vm_compute; reflexivity|vm_compute; left; reflexivity|reflexivity| |apply reachc_here].
+    intros dd H. vm_compute in H. repeat (destruct H as [H|H]; [inversion H; subst; reflexivity|]). destruct H. }
+  split; [eexists; split; [vm_compute; reflexivity|left; reflexivity]|vm_compute; reflexivity].
+Qed.
